@@ -83,7 +83,20 @@ func main() {
 			os.MkdirAll(dir, 0o755)
 		}
 		for _, key := range args[2:] {
-			vc := eng.TranslateFunc(key)
+			var vc *govc.FuncVC
+			if strings.HasPrefix(key, "lemma.") {
+				for _, l := range eng.Specs.Lemmas {
+					if l.Name == key[6:] {
+						vc = eng.TranslateLemma(l)
+					}
+				}
+				if vc == nil {
+					fmt.Println("ERROR no such lemma", key)
+					continue
+				}
+			} else {
+				vc = eng.TranslateFunc(key)
+			}
 			if vc.Err != nil {
 				fmt.Println("ERROR", vc.Err)
 				continue
